@@ -5,6 +5,7 @@ use std::path::Path;
 use std::process::ExitCode;
 
 use jj_lib::backend::CommitId;
+use jj_lib::object_id::ObjectId as _;
 use jj_lib::op_store::OpStore as _;
 use jj_lib::op_store::OperationId;
 use jj_lib::op_store::RootOperationData;
@@ -32,11 +33,15 @@ fn main() -> ExitCode {
     let store = SimpleOpStore::load(&store_path, RootOperationData { root_commit_id: CommitId::from_bytes(&[0; 20]) });
     let mut torn = vec![];
     let mut checked = 0;
+    let mut view_of = serde_json::Map::new();
     for n in names(&store_path.join("operations")) {
         let Some(id) = OperationId::try_from_hex(&n) else { continue }; // temp files are not objects
         checked += 1;
-        if let Err(e) = store.read_operation(&id).block_on() {
-            torn.push(format!("operations/{n}: {e}"));
+        match store.read_operation(&id).block_on() {
+            Ok(op) => {
+                view_of.insert(n.clone(), json!(op.view_id.hex()));
+            }
+            Err(e) => torn.push(format!("operations/{n}: {e}")),
         }
     }
     for n in names(&store_path.join("views")) {
@@ -53,6 +58,6 @@ fn main() -> ExitCode {
             dangling.push(n);
         }
     }
-    println!("{}", json!({"checked": checked, "torn": torn, "dangling_heads": dangling}));
+    println!("{}", json!({"checked": checked, "torn": torn, "dangling_heads": dangling, "view_of": view_of}));
     ExitCode::SUCCESS
 }
